@@ -461,6 +461,11 @@ def drive_hypothesis(
         except BaseExceptionGroup as exc:  # type: ignore[name-defined]  # noqa: F821
             if "f" not in last:
                 raise HarnessError(f"exception group in {rec.pid}/{sub}: {exc!r}") from exc
+        except Exception as exc:  # noqa: BLE001
+            # an internal error of the shrinker (seen with history-dependent failures) after a violation was
+            # established only costs minimisation; without a recorded failure it is a harness error
+            if "f" not in last or baize_frame(exc) is not None:
+                raise
         if "f" in last:
             rec.add_violation(sub, last["f"], last["case"])
             rec.skip.add(last["f"].bucket)
@@ -514,6 +519,8 @@ def _shard_entry(args: Tuple[Any, ...]) -> Dict[str, Any]:
         del tmpfiles._DIRS[:]  # directories inherited from the parent belong to the parent
         from harness import gateways
 
+        if gateways._LOOP is not None:
+            gateways._INHERITED.append(gateways._LOOP)  # never finalise the parent's loop here (see gateways._INHERITED)
         gateways._LOOP = None  # the parent's loop has executor threads that do not exist after fork
         _fresh_thread_pools()
         for hook in AFTER_FORK:
@@ -548,6 +555,16 @@ def run_sharded(
             fn(sub, k, nshards, *extra)
             rec.merge(sub.state())
         return
+    # a live event loop must not be inherited by the workers (see gateways._INHERITED): finish it first, the next
+    # gateway call in this process makes a new one
+    gw_mod = sys.modules.get("harness.gateways")
+    lp = getattr(gw_mod, "_LOOP", None)
+    if lp is not None and not lp.is_running():
+        try:
+            lp.close()
+        except Exception:  # noqa: BLE001
+            pass
+        gw_mod._LOOP = None
     ctx = multiprocessing.get_context("fork")
     args = [(fn, rec.pid, rec.tier, rec.seed, rec.level, k, nshards, extra) for k in range(nshards)]
     with ctx.Pool(min(procs, nshards)) as pool:
